@@ -1,6 +1,6 @@
 (* Correspondence for C11/C12: operation traces of the real queue (in linearisation order) and real Task runs *)
 From Coq Require Import List NArith ZArith Bool Arith.
-From Alp Require Import Base.Str Base.Types Model.Queue Model.Task.
+From Alp Require Import Base.Str Base.Types Model.Queue Model.Task Model.Idle.
 Import ListNotations.
 Definition obs_eqb (a b : obs) : bool :=
   match a, b with
@@ -25,3 +25,11 @@ Definition tcase := (N * bool * list segment * list (list eff))%type.
 Definition tcheck (c : tcase) : bool :=
   let '(k, x, b, effs) := c in
   list_eqb (list_eqb eff_eqb) (drive (S (length b)) {| t_key := k; t_excl := x; t_body := b; t_cleanup := [] |}) effs.
+
+(* idle reporting: (sizes per FIFO key, group key, node keys or None, node idle flags reported, group idle reported) *)
+Definition icase := (list (N * N) * N * option (list N) * list bool * bool)%type.
+Definition size_of (m : list (N * N)) (k : N) : N := match find (fun p => N.eqb (fst p) k) m with Some p => snd p | None => 0%N end.
+Definition icheck (c : icase) : bool :=
+  let '(m, g, nodes, nidle, gidle) := c in
+  Bool.eqb (group_idle (size_of m) g nodes) gidle
+  && match nodes with Some ns => list_eqb Bool.eqb (map (node_idle (size_of m)) ns) nidle | None => true end.
